@@ -38,7 +38,9 @@ pub fn load_lua_config(content: &str) -> Result<Value, String> {
         ..Default::default()
     };
 
-    let r = match lua.load_sandboxed(content, &sandbox).eval::<LuaTable>() {
+    // `eval_sandboxed` runs the chunk under the sandbox runtime limits (timeout / memory);
+    // `load_sandboxed(..).eval()` only builds the sandbox environment and never enforces them.
+    let r = match lua.eval_sandboxed::<LuaTable>(content, &sandbox) {
         Ok(v) => v,
         Err(e) => {
             let err_msg = lua.get_error_message(e);
